@@ -153,6 +153,21 @@ def find_i(root, rel, qual, depth=2):
         except RecursionError: _inl_cache[key] = fn
     return _inl_cache[key]
 
+def helper_functions(root, rel, qual=None):
+    """name -> FunctionDef of the functions a body of `qual` can call by plain name or through self/cls: the module-level
+    functions of the file, the methods of the enclosing class and the functions nested in the enclosing functions
+    (for sa/pyeval.py's env["__functions__"]; a later definition of the same name in a nearer scope wins)"""
+    t = load(root, rel); fns = {n.name: n for n in t.body if isinstance(n, ast.FunctionDef)}
+    if qual:
+        fn = find(t, qual); chain = [fn] + list(ancestors(fn))
+        for a in reversed(chain):
+            if isinstance(a, ast.ClassDef): fns.update({n.name: n for n in a.body if isinstance(n, ast.FunctionDef)})
+            elif isinstance(a, ast.FunctionDef) and a is not fn:
+                fns.update({n.name: n for n in ast.walk(a) if isinstance(n, ast.FunctionDef) and n is not a and enclosing_func(getattr(n, "_parent", None)) is a})
+        fns.update({n.name: n for n in ast.walk(fn) if isinstance(n, ast.FunctionDef) and n is not fn and enclosing_func(getattr(n, "_parent", None)) is fn})
+        fns.pop(fn.name, None) if False else None
+    return fns
+
 def clone(node):
     """structural copy of an AST node (fields and positions only: the _parent links and other annotations are not
     followed, unlike copy.deepcopy, which would copy the whole module through _parent)"""
